@@ -197,6 +197,7 @@ RULES = [
 LEVEL_TEXT = ("Static data-flow and sibling-agreement rules on MIR: every value decoded by the big-number text codec (which drops leading zero bytes) passes a "
               "length-restoring step before it is used with a fixed length (32-byte test, Ed25519 seed constructor); the two PBKDF2 derivations have "
               "identical constant arguments and feed the seed constructor; randomness is unreachable from the password path; the own public key is "
-              "trusted exactly when the configured list is empty.")
+              "trusted exactly when the configured list is empty."
+              " Password and key texts reach the crypto configuration exactly as given (shared with C20.R2).")
 LEVEL_NOTE = "Partial: decides C18.R1-R4. Not decided: acceptance of every printed key as a value statement; ring's Ed25519 contracts."
 TECHNIQUE = "source-to-sink path rule (must-pass-through a restoring step) on MIR, constant argument sibling agreement, call-graph reachability"
